@@ -37,6 +37,10 @@ type Event struct {
 	// current stored tip when that tip lies on To's path (resolved at run
 	// time), so that the batch connects.
 	FromTip bool `json:"fromtip,omitempty"`
+	// headers: Chase sends, right behind a batch mutated at index K >= 1,
+	// the honest continuation that connects to the batch's valid prefix
+	// (both messages are on the wire before the client reacts).
+	Chase bool `json:"chase,omitempty"`
 	// inv: InvKind known | unknown | mixed
 	InvKind string `json:"invkind,omitempty"`
 	// advance: seconds of virtual time.
@@ -50,7 +54,7 @@ func (e Event) String() string {
 	case "view":
 		return fmt.Sprintf("view p%d -> b%d@%d announce=%v", e.Peer, e.To.B, e.To.H, e.Announce)
 	case "headers":
-		return fmt.Sprintf("headers p%d to=b%d@%d len=%d fromtip=%v mut=%s@%d mode=%s", e.Peer, e.To.B, e.To.H, e.Len, e.FromTip, e.Mut, e.K, e.Mode)
+		return fmt.Sprintf("headers p%d to=b%d@%d len=%d fromtip=%v mut=%s@%d mode=%s chase=%v", e.Peer, e.To.B, e.To.H, e.Len, e.FromTip, e.Mut, e.K, e.Mode, e.Chase)
 	case "lie":
 		return fmt.Sprintf("lie p%d next-getheaders mut=%s@%d", e.Peer, e.Mut, e.K)
 	case "inv":
@@ -219,6 +223,7 @@ func GenScript(t *rapid.T, o GenOpts) Script {
 			case 0, 1:
 				e.Mut = kit.GenMut(t, "mut")
 				e.K = rapid.IntRange(0, e.Len-1).Draw(t, "k")
+				e.Chase = e.K >= 1 && kit.Uni(t, "chase", 3) == 0
 			case 2:
 				e.Mode = kit.Pick(t, "mode", []string{"shuffle", "gap", "dupfirst"})
 			}
@@ -391,6 +396,9 @@ func Exec(t *testing.T, sc Script, cfg Config, obs ...Observer) Result {
 				}
 				d.Headers, d.Nodes = hdrs, nodes
 				d.Sent = p.SendHeaders(hdrs)
+				if e.Chase && e.Mut != "" && e.K >= 1 && e.K < len(nodes) && e.Mode == "" {
+					p.SendHeaders(w.Batch(nodes[e.K:], -1, ""))
+				}
 			case "inv":
 				to := resolve(e.To)
 				inv := wire.NewMsgInv()
